@@ -92,4 +92,30 @@ Proof. intros Hj. set (w := mvdr RO D a x).
   assert (0 <= rsum D (fun i => Cmod (w i) * Cmod (w i)))%R.
   { apply rsum_nonneg; intros i Hi. pose proof (Cmod_ge_0 (w i)). nra. }
   nra. Qed.
+
+(* total output interference-plus-noise of the MVDR vector (all J interferers together, plus the white-noise term)
+   is bounded by the white-noise gain of the zero-forcing competitor *)
+Theorem mvdr_total_leakage_bound :
+  (rsum J (fun j => sig j * (Cmod (dot D (mvdr RO D a x) (aj j)) * Cmod (dot D (mvdr RO D a x) (aj j))))
+   + nu * rsum D (fun i => Cmod (mvdr RO D a x i) * Cmod (mvdr RO D a x i))
+   <= nu * rsum D (fun i => Cmod (v i) * Cmod (v i)))%R.
+Proof. set (w := mvdr RO D a x).
+  destruct (mvdr_optimal D noise_psd a x Hx v noise_hermitian noise_psd_nonneg Hc Hv1) as [_ Hopt]. fold w in Hopt.
+  rewrite !noise_form in Hopt. cbn [fst RtoC] in Hopt.
+  assert (Ev : rsum J (fun j => sig j * (Cmod (dot D v (aj j)) * Cmod (dot D v (aj j))))%R = 0%R).
+  { apply rsum_zero; intros t Ht. rewrite Hv0 by auto. rewrite Cmod_0. ring. }
+  rewrite Ev in Hopt. lra. Qed.
+
+(* threshold form: a target of power sk whose level exceeds T times the competitor's noise gain leaves the MVDR output
+   with signal-to-interference(-plus-noise) ratio >= T (T = 1000 is the 30 dB of the property); the target passes
+   undistorted (|w^H a| = 1) *)
+Theorem mvdr_sir_threshold (T sk : R) : (0 <= T)%R ->
+  (T * (nu * rsum D (fun i => Cmod (v i) * Cmod (v i))) <= sk)%R ->
+  (T * (rsum J (fun j => sig j * (Cmod (dot D (mvdr RO D a x) (aj j)) * Cmod (dot D (mvdr RO D a x) (aj j))))
+        + nu * rsum D (fun i => Cmod (mvdr RO D a x i) * Cmod (mvdr RO D a x i)))
+   <= sk * (Cmod (dot D (mvdr RO D a x) a) * Cmod (dot D (mvdr RO D a x) a)))%R.
+Proof. intros HT Hlev. pose proof mvdr_total_leakage_bound as Htot.
+  rewrite (mvdr_distortionless D a x Hc). rewrite Cmod_1.
+  set (I := (rsum J _ + nu * rsum D _)%R) in *. set (V := (nu * rsum D _)%R) in *.
+  assert (T * I <= T * V)%R by (apply Rmult_le_compat_l; assumption). lra. Qed.
 End Leak.
